@@ -9,7 +9,7 @@ export GOFLAGS=-mod=mod GOPROXY=off GOSUMDB=off
 wt=/tmp/seedtry_$P$V; out=/tmp/seedtry_out_$P$V
 git -C /repo worktree remove --force $wt >/dev/null 2>&1; rm -rf $out
 git -C /repo worktree add --detach $wt HEAD -q || exit 2
-git -C $wt apply $SRC/patch.diff || { echo "patch does not apply"; git -C /repo worktree remove --force $wt; exit 3; }
+git -C $wt apply $SRC/patch.diff 2>/dev/null || git -C $wt apply --3way $SRC/patch.diff || { echo "patch does not apply"; git -C /repo worktree remove --force $wt; exit 3; }
 VERIF_NOCROSS=1 /verif/bin/gosmt check $C --tier $T --repo $wt --out $out ${WORKERS:+--workers $WORKERS} 2>&1 | grep "^check\|VIOLATION\|BROKEN\|INCONC\|^  " | cut -c1-${CUT:-330} | head -${HEAD:-6}
 echo "SEEDTRY $P$V check=$C exit=${PIPESTATUS[0]}"
 git -C /repo worktree remove --force $wt >/dev/null 2>&1; rm -rf $out
